@@ -488,6 +488,7 @@ Section WithCore.
     Lemma glue_log_odds_np a w bg base : glue_log_odds K a w bg base <> Panic.
     Proof.
       unfold glue_log_odds. apply obind_np; [destruct base; repeat step|]. intros b _.
+      destruct (base_invalid b); [discriminate|].
       apply obind_np; [apply glue_background_np|]. intros g _.
       apply obind_np; [destruct (f32s_eqb _ _); repeat step|]. intros w' _. repeat step.
     Qed.
@@ -506,7 +507,8 @@ Section WithCore.
 
     Lemma glue_calculate_np a s aq q : fst (glue_calculate K a s aq q) <> Panic.
     Proof.
-      unfold glue_calculate. destruct (abc_eqb a aq); [|discriminate].
+      unfold glue_calculate. destruct (sm_empty _); [discriminate|].
+      destruct (abc_eqb a aq); [|discriminate].
       destruct (ct_configure CT q s) as [q' ->]. cbn [fst]. repeat step.
     Qed.
 
@@ -520,24 +522,29 @@ Section WithCore.
     Lemma glue_pvalue_np s x m : glue_pvalue K s x m <> Panic.
     Proof.
       unfold glue_pvalue. apply obind_np; [step|]. intros v _. apply obind_np; [step|]. intros mm _.
-      destruct (zlist_eqb mm str_tfmpvalue); [repeat step|]. destruct (zlist_eqb mm str_meme); repeat step.
+      destruct (f64_is_nan v || _); [discriminate|].
+      destruct (zlist_eqb mm str_tfmpvalue); [destruct (finite_ok _); repeat step|].
+      destruct (zlist_eqb mm str_meme); [destruct (ordered_ok _ _); repeat step | discriminate].
     Qed.
 
     Lemma glue_score_np s x m : glue_score K s x m <> Panic.
     Proof.
       unfold glue_score. apply obind_np; [step|]. intros v _. apply obind_np; [step|]. intros mm _.
-      destruct (zlist_eqb mm str_tfmpvalue); [repeat step|]. destruct (zlist_eqb mm str_meme); repeat step.
+      destruct (negb (pvalue_in_range v)); [discriminate|].
+      destruct (zlist_eqb mm str_tfmpvalue); [destruct (finite_ok _); repeat step|].
+      destruct (zlist_eqb mm str_meme); [destruct (ordered_ok _ _); repeat step | discriminate].
     Qed.
 
     Lemma glue_max_score_np s : glue_max_score K s <> Panic.
-    Proof. unfold glue_max_score. repeat step. Qed.
+    Proof. unfold glue_max_score. destruct (ordered_ok _ _); repeat step. Qed.
 
     Lemma glue_revcomp_np a s : glue_revcomp K a s <> Panic.
     Proof. unfold glue_revcomp. destruct a; repeat step. Qed.
 
     Lemma glue_scan_np a s aq q t b : fst (glue_scan K a s aq q t b) <> Panic.
     Proof.
-      unfold glue_scan. destruct a, aq; try discriminate.
+      unfold glue_scan. destruct (negb _); [discriminate|]. destruct a, aq; try discriminate.
+      destruct (sm_empty _); [discriminate|].
       destruct (ct_configure CT q s) as [q' ->]. cbn [fst]. repeat step.
     Qed.
 
@@ -707,14 +714,14 @@ Section WithCore.
 
     Lemma calculate_text a s aq q : text (snd (glue_calculate K a s aq q)) = text q.
     Proof.
-      unfold glue_calculate. destruct (abc_eqb a aq); [|reflexivity].
+      unfold glue_calculate. destruct (sm_empty _); [reflexivity|]. destruct (abc_eqb a aq); [|reflexivity].
       destruct (c_configure K q s) eqn:E; try reflexivity. simpl. eapply conf_text; eauto.
     Qed.
 
     Lemma calculate_indep a s aq q1 q2 :
       text q1 = text q2 -> fst (glue_calculate K a s aq q1) = fst (glue_calculate K a s aq q2).
     Proof.
-      intros Ht. unfold glue_calculate. destruct (abc_eqb a aq); [|reflexivity].
+      intros Ht. unfold glue_calculate. destruct (sm_empty _); [reflexivity|]. destruct (abc_eqb a aq); [|reflexivity].
       destruct (conf_total q1 s) as [q1' E1]. destruct (conf_total q2 s) as [q2' E2].
       rewrite E1, E2. cbn [fst].
       rewrite (score_text s q1' q2'); eauto.
@@ -723,14 +730,16 @@ Section WithCore.
 
     Lemma scan_text_inv a s aq q t b : text (snd (glue_scan K a s aq q t b)) = text q.
     Proof.
-      unfold glue_scan. destruct a, aq; try reflexivity.
+      unfold glue_scan. destruct (negb _); [reflexivity|]. destruct a, aq; try reflexivity.
+      destruct (sm_empty _); [reflexivity|].
       destruct (c_configure K q s) eqn:E; try reflexivity. simpl. eapply conf_text; eauto.
     Qed.
 
     Lemma scan_indep a s aq q1 q2 t b :
       text q1 = text q2 -> fst (glue_scan K a s aq q1 t b) = fst (glue_scan K a s aq q2 t b).
     Proof.
-      intros Ht. unfold glue_scan. destruct a, aq; try reflexivity.
+      intros Ht. unfold glue_scan. destruct (negb _); [reflexivity|]. destruct a, aq; try reflexivity.
+      destruct (sm_empty _); [reflexivity|].
       destruct (conf_total q1 s) as [q1' E1]. destruct (conf_total q2 s) as [q2' E2].
       rewrite E1, E2. cbn [fst].
       rewrite (scan_text s q1' q2' t b); eauto.
